@@ -18,7 +18,7 @@ VALUES = ["1", "abc", "{x}", '"x"', "{a{b}c}", '"a{b}c"', '{a"b}', "{a,b=c}", '"
           "{u\u0308ber}", '"\u212bngstr\u00f6m \u2126"', "{e\u0301}",
           '{"Alea iacta est"}', '{"q"}', '"{b}"', '{{"x"}}', '"{"}"']       # a value whose content is itself enclosed / a quotation       # text is kept code point by code point (no normalisation)      # digit strings are text: leading zeros and non-ASCII digits are kept
 WS = ["", " ", "\n", "\r\n", "\t", "  ", " \n ", "\u00a0", "\x0c ", " \u2003"]
-GAPS = ["", "% comment", "free text = , \" } {", "a\\@b", "x\ny", "#", "n\u0303 \u212a"]
+GAPS = ["", "% comment", "free text = , \" } {", "a\\@b", "x\ny", "#", "n\u0303 \u212a", "line one  \nline two\t\n  last"]
 ETYPES = ["article", "Book", "commentary", "stringent", "x1", "INPROCEEDINGS", "preambles", "é",
           "Straße", "ΛΌΓΟΣ", "ſtring", "ǅx"]      # lower() differs from casefold() / is not ASCII-only
 # (an entry type holding U+0130 lower-cases to i + U+0307, which is no word character: see C05 known finding; only fixed witnesses use it)
